@@ -3,6 +3,7 @@ package main
 
 import (
 	"fmt"
+	"math"
 	"reflect"
 
 	"gopkg.in/typ.v4/slices"
@@ -37,6 +38,11 @@ func main() {
 		} else {
 			sizes = []int{1, 2, 3, 7, 8, 15, 16, 17, 31, 32, 33, 64, n/2 - 1, n / 2, n/2 + 1, n - 1, n, n + 1, n + 2, 2 * n}
 		}
+		// extreme sizes: "no limit" sentinels and values where n+size overflows
+		for k := 0; k <= n+3 && k <= 12; k++ {
+			sizes = append(sizes, math.MaxInt-k)
+		}
+		sizes = append(sizes, math.MaxInt/2, math.MaxInt/2+1, math.MaxInt32, math.MaxInt32+1, 1<<16, 1<<40)
 		for _, size := range sizes {
 			rp := map[string]any{"n": n, "size": size}
 			e.Input(n%size >= 2 || size > n)
@@ -49,7 +55,10 @@ func main() {
 			if p, m := enum.Catch(func() { chunks = slices.Chunk(s, size) }); p {
 				e.Fail("Chunk|panic", rp, "Chunk(n=%d,size=%d) panicked: %s", n, size, m)
 			} else {
-				want := (n + size - 1) / size
+				want := n / size
+				if n%size != 0 {
+					want++
+				}
 				if len(chunks) != want {
 					e.Fail("Chunk|count", rp, "Chunk(n=%d,size=%d) returned %d pieces %v, want %d", n, size, len(chunks), chunks, want)
 				} else {
@@ -119,19 +128,20 @@ func main() {
 
 func refChunks(s []int, size int) [][]int {
 	var out [][]int
-	for i := 0; i < len(s); i += size {
-		j := i + size
-		if j > len(s) {
-			j = len(s)
+	for i := 0; i < len(s); {
+		j := len(s)
+		if size < len(s)-i { // written so that i+size cannot overflow
+			j = i + size
 		}
 		out = append(out, append([]int{}, s[i:j]...))
+		i = j
 	}
 	return out
 }
 
 func refWindows(s []int, size int) [][]int {
 	var out [][]int
-	for i := 0; i+size <= len(s); i++ {
+	for i := 0; size <= len(s)-i; i++ {
 		out = append(out, append([]int{}, s[i:i+size]...))
 	}
 	return out
